@@ -12,6 +12,8 @@ pub mod symbolic;
 pub mod tables;
 pub mod test_utils;
 pub mod types;
+#[cfg(p3r_verif)]
+pub mod verif_trace;
 
 // Re-export public API
 #[cfg(feature = "debugging")]
